@@ -2,16 +2,23 @@
 
 Three instruments, all driven from `generate()` (the standard flow of check.py does the rest):
 
- 1. `harness/c16_sweep.cpp` (C++ only, -O2, threads): etl vs glibc on 2^24 stratified (quick) / all 2^32 (thorough)
-    binary32 patterns x 13 unary exact functions, ~1.4e7 / 2.6e8 binary64 patterns, and millions of pairs for the 7
-    binary exact functions.  Every mismatch it prints becomes an ordinary case line below.
+ 1. `harness/c16_sweep.cpp` (C++ ONLY — the Lean spec and model do not see these inputs; -O2, threads): etl vs glibc on 2^24
+    stratified (quick) / all 2^32 (thorough) binary32 patterns x 13 unary exact functions, ~1.4e7 / 2.6e8 binary64 patterns,
+    and millions of pairs for the 7 binary exact functions.  Every mismatch it prints becomes an ordinary case line below.
+    For the functions whose run-time path forwards to the compiler builtin that libstdc++'s std:: function resolves to as
+    well (BUILTIN_FORWARDED below) this compares a call with the same builtin: it checks the DISPATCH (etl forwards to the
+    right function and no wrapper code changes the value), not an independent implementation.
  2. vector lines (`uv`, `bv`, 64 inputs per line) through harness AND Lean driver: the four-sided comparison
-    impl = model, spec = libm, impl = spec on 2^21 (quick) / 2^24 (thorough) binary32 patterns etc.  Lines with a
-    disagreeing element are expanded into single-input case lines.
+    impl = model, spec = libm, impl = spec on 2^20 (quick: 512 sign-exponent classes x 2048) / 2^24 (thorough: x 32768)
+    binary32 patterns, 2^18 / 2^22 binary64 patterns, 2^15 / 2^19 pairs per binary function and format.  This is all the Lean
+    spec ever sees.  Lines with a disagreeing element are expanded into single-input case lines.
  3. single-input case lines: every special value of harness/c16_ctab.inc x every function on the run-time path
     (`u`, `b`) and on the constant-evaluated path (`cu`, `cb`: constexpr tables compiled into the harness);
-    lerp / midpoint / fma against libstdc++ (`s`); approximating and complex functions against libm within the
-    tolerances of harness/c16_tol.inc (`a`, `ca`, `c`) — observed only, never counted as proved.
+    lerp / midpoint / fma against libstdc++ (`s`; `cs`: rows of a constexpr table); approximating and complex functions
+    against libm within the tolerances of harness/c16_tol.inc (`a`, `ca`, `c`) — observed only, never counted as proved.
+
+The sign bit of a NaN result is compared for fabs / abs / copysign (`nan+` / `nan-`) in all three instruments; the payload of
+a NaN never.
 """
 import os
 import random
@@ -27,6 +34,9 @@ PROP = "C16"
 DRIVER = "drv-c16"
 PROOF_MODULES = ["TetlProofs.C16.Props"]
 HARNESS = "harness/c16.cpp"
+# gcem recurses deeply in constant evaluation (sqrt of the largest finite value needs > 512 frames when a change sends the
+# constant-evaluated sqrt back to gcem): with the default depth the harness would stop compiling instead of reporting the value
+HARNESS_FLAGS = ["-fconstexpr-depth=8192"]
 SOURCES = ["include/etl/_cmath", "include/etl/_math/abs.hpp", "include/etl/_complex", "include/etl/_numeric/midpoint.hpp",
            "include/etl/_3rd_party/gcem/gcem_incl"]
 SEARCH_CAP = 300000
@@ -39,18 +49,33 @@ UNARY_APPROX = ["sqrt", "exp", "log", "log2", "log10", "log1p", "sin", "cos", "t
 BINARY_APPROX = ["pow", "atan2", "hypot", "beta"]
 COMPLEX = ["abs", "arg", "norm", "conj", "polar", "sin", "cos", "tan", "sinh", "cosh", "tanh", "log", "log10"]
 COMPLEX2 = ["add", "sub", "mul", "div"]
+# run-time path = the compiler builtin libstdc++ resolves to as well: the C++ comparison checks the dispatch only, and on
+# `.rt` the Lean model of these functions IS the spec (R1 coincides with R3)
+BUILTIN_FORWARDED = ["floor", "ceil", "trunc", "round", "rint", "lrint", "llrint", "signbit", "isnan", "isinf", "copysign", "fmod",
+                     "remainder", "sqrt", "exp", "log", "log2", "log10", "log1p", "sin", "cos", "tan", "asin", "acos", "atan", "sinh",
+                     "cosh", "tanh", "asinh", "acosh", "atanh", "erf", "tgamma", "lgamma", "pow", "atan2"]
 
-RULE = ("exact functions: C++ sweep etl-vs-glibc over 2^24 stratified binary32 patterns (every sign x exponent x boundary "
-        "mantissas x seeded random; thorough: all 2^32) and ~1.4e7 (2.6e8) binary64 patterns for the 13 unary functions, "
+# long double overloads without a builtin branch (include/etl/_cmath/*.hpp): gcem at run time
+LD_GCEM = ["exp", "log", "log2", "log10", "sin", "cos", "tan", "asin", "acos", "atan", "tanh", "asinh", "acosh", "pow"]
+LD_BUILTIN = ["sqrt", "log1p", "sinh", "cosh", "atanh", "erf", "tgamma", "lgamma", "atan2"]
+
+RULE = ("exact functions: C++-only sweep etl-vs-glibc (no Lean side) over 2^24 stratified binary32 patterns (every sign x exponent x "
+        "boundary mantissas x seeded random; thorough: all 2^32) and ~1.4e7 (2.6e8) binary64 patterns for the 13 unary functions, "
         "boundary grid^2 + 3e6 (6e7) seeded pairs per format for the 7 binary functions; four-sided comparison "
-        "(impl=model, spec=libm, impl=spec) through the Lean driver on 2^20 (2^24) binary32 and 2^18 (2^22) binary64 "
+        "(impl=model, spec=libm, impl=spec) through the Lean driver on 2^20 (thorough 2^24) binary32 and 2^18 (2^22) binary64 "
         "patterns, 2^15 (2^19) pairs per binary function and format; every special value of c16_ctab.inc x every function on "
-        "the run-time and on the constant-evaluated path (constexpr tables).  A case is non-trivial when the input is not "
-        "already a fixed point of the function (result bits != input bits) or is a NaN/inf/zero/subnormal special case; "
-        "distinct = distinct case text.  Approximating/complex functions: ulp distance to glibc on seeded samples of the "
-        "domain (observed only).")
+        "the run-time and on the constant-evaluated path (constexpr tables; every pair for fmod/remainder too).  The sign bit of a NaN "
+        "result is compared for fabs/abs/copysign.  For functions whose run-time path is the compiler builtin (floor ... remainder, "
+        "see BUILTIN_FORWARDED) the run-time comparison checks the dispatch, not an independent implementation.  A case is "
+        "non-trivial when the input is not already a fixed point of the function (result bits != input bits) or is a "
+        "NaN/inf/zero/subnormal special case; distinct = distinct case text.  Approximating/complex functions: ulp distance to "
+        "glibc (relative bound; absolute bound only where libm's result is zero or subnormal) on seeded samples of the whole C "
+        "domain at run time, fixed tables in constant evaluation; hypot / complex abs over exponent grid^2 + log-uniform "
+        "magnitudes (observed only).")
 ASSUMPTIONS = ["glibc 2.36 libm / libstdc++ 12 on x86-64 in the default rounding mode is the reference (R2 validates the Lean spec against it on every run)",
-               "NaN results are compared as `nan` (sign and payload of a NaN result are not compared)",
+               "the payload of a NaN result is never compared; its sign bit is compared for fabs, abs and copysign (printed `nan+` / `nan-` by "
+               "harness, sweep and driver: fabs clears, copysign copies the sign bit of a NaN too) and for no other function (C leaves the sign "
+               "of a NaN produced by an arithmetic function unspecified)",
                "signaling NaN arguments of fmin/fmax and the sign of fmin/fmax(+0,-0) are unspecified by C (C17 F.2.1, 7.12.12) and masked",
                "lrint/llrint of NaN, infinities and out-of-range values is unspecified and masked",
                "the sign of a zero result of remainder(x, y) with x != 0 is not compared (glibc 2.36 deviates from IEC 60559 for some subnormal y)",
@@ -58,22 +83,36 @@ ASSUMPTIONS = ["glibc 2.36 libm / libstdc++ 12 on x86-64 in the default rounding
 TRUSTED = ["hand model Tetl/C16/Model.lean (dispatch + fallbacks) and, for the constant-evaluated gcem floor/ceil/trunc/round and rint/lrint "
            "fallbacks, Tetl/C13/Model.lean (imported: one model of that code for C13 and C16), tied to the source by the correspondence run (R1) on every run",
            "bit-level spec Tetl/C16/Spec.lean validated against glibc (R2) on every run",
-           "g++ constant evaluator for the constexpr tables"]
+           "g++ constant evaluator for the constexpr tables, and its folding of the fmod/remainder/sqrt/fma/signbit builtins (exactness assumed as for "
+           "the run-time builtins; observed on the tables)"]
 
 # no Lean model possible (DESIGN §6): compared with glibc within a measured tolerance, reported as observed only
-UNPROVED_OBSERVED = (["%s (run time: ulps vs glibc, tolerance in harness/c16_tol.inc)" % f for f in UNARY_APPROX + BINARY_APPROX]
-                     + ["%s (constant evaluation = gcem series, small table)" % f for f in UNARY_APPROX]
+RT_BUILTIN_APPROX = [f for f in UNARY_APPROX + BINARY_APPROX if f in BUILTIN_FORWARDED]
+UNPROVED_OBSERVED = (["%s (run time = libm builtin: bit-identical over the whole C domain, a check of the dispatch)" % f for f in RT_BUILTIN_APPROX]
+                     + ["hypot, hypot3 (run time and constant evaluation: tetl's scaled formula, <= 4 ulps of glibc over exponent grid^2 + log-uniform magnitudes)",
+                        "beta (run time = gcem: <= 512 ulps of libstdc++ on (0.1, 10)^2 only; other arguments not sampled)"]
+                     + ["%s (constant evaluation = gcem series: table of 29 arguments, tolerance in harness/c16_tol.inc, classes of "
+                        "F-C16-gcem-outside-domain excluded)" % f for f in UNARY_APPROX if f != "sqrt"]
+                     + ["sqrt (constant evaluation = folded builtin: bit-identical on the table)",
+                        "pow, atan2 (constant evaluation = gcem: tables of 11 / 13 pairs)"]
                      + ["complex %s (vs std::complex, tolerance relative to the modulus)" % f for f in COMPLEX + COMPLEX2]
-                     + ["lerp, midpoint<float/double>, fma (bit-identical to libstdc++/glibc on special-value grid + seeded random)"])
+                     + ["lerp, midpoint<float/double>, fma (bit-identical to libstdc++/glibc on special-value grid + seeded random; "
+                        "constant evaluation: 13 rows each)",
+                        "nearbyint, isnormal, fpclassify (named by the property / DESIGN): n/a, not provided by etl",
+                        "long double overloads at run time (op `al`, binary64 inputs incl. half-integers): %s have a builtin branch (bit-identical); "
+                        "%s run gcem (ulps of long double, tolerance tol_ld in c16_tol.inc)" % (", ".join(LD_BUILTIN), ", ".join(LD_GCEM)),
+                        "long double overloads of the exact functions, integral and suffixed (f/l) overloads: not exercised"])
 # members with a Lean model/spec compared on every run, but no theorem
 CORRESPONDENCE_ONLY = ["lrint, llrint (spec = intMag .halfEven with range check; the theorems are about rint/intMag, the integer conversion itself has none)",
                        "fdim (spec: correctly rounded x-y via rne; no theorem about rne)",
-                       "fmod, remainder (spec: mag x % mag y re-encoded by ofMag; no theorem that ofMag decodes back)",
+                       "fmod, remainder (spec: mag x % mag y re-encoded by ofMag; no theorem that ofMag decodes back; the constant-evaluated "
+                       "ladder is proved equal to this spec: fmodCt_eq, remainderCt_eq)",
                        "rint_fallback / lrint_fallback on the constant-evaluated path (model = Tetl.C13.Model.rintFallback / lrintFallback, the one model of "
                        "that code; value by correspondence, totality proved by C13: Tetl.C13.Props.rintFallback_total)",
-                       "fmod, remainder on the constant-evaluated path (gcem x - trunc(x/y)*y: not modelled, known finding F-C16-gcem-fmod-constexpr)"]
+                       "fmin, fmax, signbit (model = the same term as the spec: Lemmas.fmin_model_eq / fmax_model_eq / signbitFallback_eq are `rfl` "
+                       "re-statements, not counted; signbit_fallback is dead code under GCC)"]
 
-TOLERANCES = "see harness/c16_tol.inc; measured maxima are written to evidence input_distribution by thorough runs"
+TOLERANCES = "see harness/c16_tol.inc (rule, measured maxima and how they were measured are quoted there per function)"
 
 # ------------------------------------------------------------------ tables shared with the harness
 
@@ -302,11 +341,89 @@ def special_cases(tier, seed, dist):
     return cases
 
 
-APPROX_SPECIALS = [0.0, -0.0, 1.0, -1.0, 0.5, -0.5, 2.0, 10.0, float("inf"), float("-inf"), float("nan"), 1e-30, -1e-30, 1e30, 3.0, 171.0]
-# the domain on which gcem's series are meant to be used (outside: libm builtin paths are still compared everywhere)
-GCEM_RT = {"log1p": (-0.999, 1e6), "erf": (-6.0, 6.0), "tgamma": (0.05, 30.0), "lgamma": (0.05, 1e3),
-           "sinh": (-50.0, 50.0), "cosh": (-50.0, 50.0), "atanh": (-0.999, 0.999)}
-CA_IN = [0.0, 0.1, 0.25, 0.5, 0.75, 1.0, 1.5, 2.0, 3.0, 10.0, -0.1, -0.5, -1.0, -2.0, 0.001, 7.25, 100.0]
+APPROX_SPECIALS = [0.0, -0.0, 1.0, -1.0, 0.5, -0.5, 2.0, 10.0, float("inf"), float("-inf"), float("nan"), 1e-30, -1e-30, 1e30, -1e30,
+                   3.0, 171.0, 171.7, 89.0, -89.0, 710.0, -2.0, -3.0, -2.5, -0.5, -170.5, -1e-5, 1e-5, 0.999, -0.999, 36.0, -100.5]
+# run time = gcem only for beta (the other approximating functions forward to the libm builtin: their `a` cases check the
+# dispatch over the whole C domain, tolerance 0)
+BETA_RANGE = (0.1, 10.0)
+# the inputs of the constexpr tables CA<T> of harness/c16.cpp (same order), plus max and denorm_min of the format
+CA_IN = [0.0, 0.1, 0.25, 0.5, 0.75, 1.0, 1.5, 2.0, 3.0, 10.0, -0.1, -0.5, -1.0, -2.0, 0.001, 7.25, 100.0,
+         -0.0, 1e-30, -1e-30, 1e-5, 50.0, 89.0, 1e30, -100.0, -2.5, 0.999]
+INF, NAN = float("inf"), float("nan")
+CA2_IN = {"pow": [(2, 3), (2, 0.5), (10, -2), (0.5, 2.5), (3, 0), (1.5, 7.25), (0.1, 0.25), (1, 1e30), (-2, 3), (-2, 2), (0, 2)],
+          "atan2": [(1, 1), (1, -1), (-1, -1), (-1, 1), (0, 1), (0, -1), (-0.0, -1), (-0.0, 1), (3, 4), (0.1, 0.25), (1, 0), (-1, 0), (0, 0)],
+          "hypot": [(3, 4), (-3, 4), (1e-30, 0), (1e-30, -1e-30), (0, 0), (0.1, 0.25), (-0.0, 0), ("denorm", "denorm"), ("minnorm", 0),
+                    (INF, NAN)]}
+CS_ROWS = 13
+
+
+def ca_bits(v, w):
+    e, m = FMT[w]
+    if v == "max":
+        return (((1 << e) - 2) << m) | ((1 << m) - 1)
+    if v == "denorm":
+        return 1
+    if v == "minnorm":
+        return 1 << m
+    return f2b(float(v), w)
+
+
+def log_uniform_bits(rnd, w):
+    """a magnitude whose exponent is uniform over the whole format (subnormals and the largest binade included), random sign"""
+    e, m = FMT[w]
+    return (rnd.getrandbits(1) << (e + m)) | (rnd.randrange(0, (1 << e) - 1) << m) | rnd.getrandbits(m)
+
+
+def magnitude_grid(w):
+    """every 8th exponent of the format incl. the extremes (subnormal, min normal, largest binade) x boundary mantissas"""
+    e, m = FMT[w]
+    top = (1 << m) - 1
+    exps = sorted(set(list(range(0, (1 << e) - 1, 8)) + [0, 1, (1 << e) - 2, (1 << (e - 1)) - 1]))
+    return [(ex << m) | mm for ex in exps for mm in (0, 1, top, 1 << (m - 1))]
+
+
+def dense_values(w):
+    """bit patterns of the dense constexpr table CE<T> of harness/c16.cpp: exact half-integers +-(n + 0.5), n = 0..40, integers,
+    the neighbours of h/2 and of m * ln 2 (gcem's exp splits x = n + r at the tie |r| = 0.5)"""
+    sb = 1 << (w - 1)
+    r = lambda v: f2b(v, w)
+    out = []
+    for n in range(41):
+        out += [r(n + 0.5), r(-(n + 0.5))]
+    for n in (2, 3, 4, 5, 8, 16, 17, 32, 40):
+        out += [r(float(n)), r(float(-n))]
+    for h in (4, 5, 6, 7, 8, 9, 16, 17, 40, 41, 80, 81, 33, 65):
+        b = r(h / 2.0)
+        out += [b + 1, b - 1, (b + 1) | sb, (b - 1) | sb]
+    ln2 = b2f(r(0.6931471805599453), w)          # ln 2 rounded to the format
+    for m in (1, 2, 3, 10, 50, 100, 127):
+        b = r(m * ln2)                           # the product of two values of the format, rounded once
+        out += [b, b + 1, b - 1]
+    return out
+
+
+def reduction_values(w):
+    """run-time inputs across gcem's (and any) argument-reduction boundaries: +-(n + 0.5) and +-n for n = 0..40, k/2 +- 1 ulp for
+    k = 1..81, m * ln 2 +- 1 ulp, powers of two +- 1 ulp"""
+    sb = 1 << (w - 1)
+    r = lambda v: f2b(v, w)
+    out = list(dense_values(w))
+    for n in range(41):
+        out += [r(float(n)), r(float(-n)) if n else sb]
+    for k in range(1, 82):
+        b = r(k / 2.0)
+        out += [b + 1, b - 1, (b + 1) | sb, (b - 1) | sb]
+    ln2 = b2f(r(0.6931471805599453), w)
+    for m in range(1, 128, 3):
+        b = r(m * ln2)
+        out += [b, b + 1, b - 1, b | sb]
+    for e in range(-10, 11):
+        b = r(2.0 ** e)
+        out += [b, b + 1, b - 1, b | sb]
+    return sorted(set(out))
+
+
+DENSE_FNS = ["exp", "sinh", "cosh", "tanh", "log", "log2", "log10", "log1p"]
 
 
 def approx_cases(tier, seed, dist):
@@ -314,63 +431,130 @@ def approx_cases(tier, seed, dist):
     thorough = tier == "thorough"
     n = 2000 if thorough else 250
     cases = []
+    sign = {32: 1 << 31, 64: 1 << 63}
 
     def add(line, tag):
         cases.append(Case(line, tag))
         dist[tag] = dist.get(tag, 0) + 1
 
     def sample(w, f):
-        if f in GCEM_RT:
-            lo, hi = GCEM_RT[f]
-            c = rnd.random()
-            if c < 0.5:
-                return f2b(rnd.uniform(max(lo, -10), min(hi, 10)), w)
-            if lo >= 0:         # log-uniform over the positive part of the domain
-                import math
-                a = math.log(max(lo, 1e-30 if w == 32 else 1e-300))
-                b = math.log(min(hi, 3e38 if w == 32 else 1e300))
-                return f2b(math.exp(rnd.uniform(a, b)), w)
-            return f2b(rnd.uniform(lo, hi), w)
+        # the whole C domain: uniform bit patterns (every exponent, NaNs, infinities), ordinary and small arguments,
+        # negative non-integers and poles for the gamma functions, the overflow thresholds of exp/sinh/cosh
         c = rnd.random()
-        if c < 0.4:
+        if c < 0.35:
             return rnd.getrandbits(w)
-        if c < 0.8:
+        if c < 0.65:
             return f2b(rnd.uniform(-10, 10), w)
-        return f2b(rnd.uniform(-1, 1), w)
+        if c < 0.8:
+            return f2b(rnd.uniform(-1, 1), w)
+        if c < 0.9:
+            return f2b(rnd.uniform(-200, 200), w)
+        if c < 0.95:
+            return f2b(float(rnd.randint(-180, 180)) + rnd.choice([0.0, 0.5, 1e-3, -1e-3]), w)
+        return log_uniform_bits(rnd, w)
 
     for w in (32, 64):
         for f in UNARY_APPROX:
             for v in APPROX_SPECIALS:
-                if f in ("tgamma", "lgamma") and v < 0:
-                    continue          # gcem's gamma recursion does not terminate for large negative arguments: known finding
                 add("a t=%d f=%s x=%d" % (w, f, sg(f2b(v, w), w)), "a/" + f)
             for _ in range(n):
                 add("a t=%d f=%s x=%d" % (w, f, sg(sample(w, f), w)), "a/" + f)
-            for v in CA_IN:
-                add("ca t=%d f=%s x=%d" % (w, f, sg(f2b(v, w), w)), "ca/" + f)
+            for v in CA_IN + ["max", "denorm"]:
+                add("ca t=%d f=%s x=%d" % (w, f, sg(ca_bits(v, w), w)), "ca/" + f)
+            if f in DENSE_FNS:
+                for b in dense_values(w):
+                    add("ca t=%d f=%s x=%d" % (w, f, sg(b, w)), "ca-dense/" + f)
+                for b in reduction_values(w):
+                    add("a t=%d f=%s x=%d" % (w, f, sg(b, w)), "a-reduction/" + f)
+        for f, pairs in CA2_IN.items():
+            for x, y in pairs:
+                add("ca t=%d f=%s x=%d y=%d" % (w, f, sg(ca_bits(x, w), w), sg(ca_bits(y, w), w)), "ca/" + f)
+        for f in ("fma", "lerp", "midpoint"):
+            for k in range(CS_ROWS):
+                add("cs t=%d f=%s k=%d" % (w, f, k), "cs/" + f)
+        pow_special = [f2b(v, w) for v in (0.0, -0.0, 1.0, -1.0, 0.5, 2.0, -2.0, 3.0, -3.0, 0.5, -0.5, INF, -INF, NAN, 1e30, 1e-30)]
         for f in BINARY_APPROX:
             for _ in range(n):
                 if f == "pow":
                     x = f2b(rnd.uniform(0, 20), w) if rnd.random() < 0.7 else rnd.getrandbits(w)
-                    y = f2b(rnd.uniform(-8, 8), w) if rnd.random() < 0.7 else f2b(float(rnd.randint(-5, 5)), w)
+                    c = rnd.random()
+                    y = f2b(rnd.uniform(-8, 8), w) if c < 0.6 else (f2b(float(rnd.randint(-5, 5)), w) if c < 0.85 else
+                                                                    (rnd.choice(pow_special) if c < 0.95 else rnd.getrandbits(w)))
                 elif f == "beta":
-                    x, y = f2b(rnd.uniform(0.1, 10), w), f2b(rnd.uniform(0.1, 10), w)
+                    x, y = f2b(rnd.uniform(*BETA_RANGE), w), f2b(rnd.uniform(*BETA_RANGE), w)
                 elif f == "hypot":
-                    x, y = f2b(rnd.uniform(-1e3, 1e3), w), f2b(rnd.uniform(-1e3, 1e3), w)
+                    c = rnd.random()
+                    if c < 0.3:
+                        x, y = f2b(rnd.uniform(-1e3, 1e3), w), f2b(rnd.uniform(-1e3, 1e3), w)
+                    elif c < 0.7:       # log-uniform magnitudes over the whole range, independent exponents
+                        x, y = log_uniform_bits(rnd, w), log_uniform_bits(rnd, w)
+                    else:               # nearby exponents (the sum of squares matters), anywhere in the range
+                        x = log_uniform_bits(rnd, w)
+                        e, m = FMT[w]
+                        ex = min(max(((x >> m) & ((1 << e) - 1)) + rnd.randint(-(m // 2 + 2), m // 2 + 2), 0), (1 << e) - 2)
+                        y = (rnd.getrandbits(1) << (e + m)) | (ex << m) | rnd.getrandbits(m)
                 else:
-                    x, y = f2b(rnd.uniform(-10, 10), w), f2b(rnd.uniform(-10, 10), w)
+                    c = rnd.random()
+                    if c < 0.7:
+                        x, y = f2b(rnd.uniform(-10, 10), w), f2b(rnd.uniform(-10, 10), w)
+                    elif c < 0.85:
+                        x, y = rnd.getrandbits(w), rnd.getrandbits(w)
+                    else:
+                        x, y = rnd.choice(pow_special), rnd.choice(pow_special)
                 add("a t=%d f=%s x=%d y=%d" % (w, f, sg(x, w), sg(y, w)), "a/" + f)
+        # pow: half-integer / integer / boundary exponents and bases (gcem pow = exp(y * log x) on its paths)
+        red = reduction_values(w)
+        for b in red:
+            add("a t=%d f=pow x=%d y=%d" % (w, sg(f2b(2.0, w), w), sg(b, w)), "a-reduction/pow")
+            add("a t=%d f=pow x=%d y=%d" % (w, sg(b, w), sg(f2b(2.5, w), w)), "a-reduction/pow")
+        # pow: the special cases of C17 F.10.4.4 (y NaN / infinite / zero, x zero / one / negative / infinite)
+        for x in pow_special:
+            for y in pow_special:
+                add("a t=%d f=pow x=%d y=%d" % (w, sg(x, w), sg(y, w)), "a/pow-special")
+        # hypot: exponent grid x exponent grid (every 8th exponent incl. subnormals and the largest binade, boundary
+        # mantissas); hypot3 with a third grid value
+        mg = magnitude_grid(w)
+        pairs = [(x, y) for x in mg for y in mg]
+        cap = 40000 if thorough else 1500          # binary32 thorough: every pair (18496); otherwise a seeded sample
+        if len(pairs) > cap:
+            pairs = rnd.sample(pairs, cap)
+        for x, y in pairs:
+            if rnd.random() < 0.25:
+                x |= sign[w]
+            add("a t=%d f=hypot x=%d y=%d" % (w, sg(x, w), sg(y, w)), "a/hypot-grid")
+        for _ in range(3000 if thorough else 300):
+            x, y, z = rnd.choice(mg), rnd.choice(mg), rnd.choice(mg)
+            add("a t=%d f=hypot3 x=%d y=%d z=%d" % (w, sg(x, w), sg(y, w), sg(z, w)), "a/hypot3-grid")
+        for _ in range(n):
+            x, y, z = log_uniform_bits(rnd, w), log_uniform_bits(rnd, w), log_uniform_bits(rnd, w)
+            add("a t=%d f=hypot3 x=%d y=%d z=%d" % (w, sg(x, w), sg(y, w), sg(z, w)), "a/hypot3")
         # hypot: documented special cases (inf wins over NaN, NaN otherwise)
-        sp = [f2b(v, w) for v in (float("inf"), float("-inf"), float("nan"), 0.0, -0.0, 3.0, -4.0)]
+        sp = [f2b(v, w) for v in (INF, -INF, NAN, 0.0, -0.0, 3.0, -4.0)]
         for x in sp:
             for y in sp:
                 add("a t=%d f=hypot x=%d y=%d" % (w, sg(x, w), sg(y, w)), "a/hypot-special")
-                if all(b2f(v, w) == b2f(v, w) and abs(b2f(v, w)) != float("inf") for v in (x, y)):
+                if all(b2f(v, w) == b2f(v, w) and abs(b2f(v, w)) != INF for v in (x, y)):
                     # libstdc++ 12's three-argument hypot returns NaN for infinite arguments (its own defect): finite only
                     add("a t=%d f=hypot3 x=%d y=%d z=%d" % (w, sg(x, w), sg(y, w), sg(sp[5], w)), "a/hypot-special")
-        for v in (0.0, -0.0):
-            for u in (0.0, -0.0, 1.0, -1.0):
+        for v in (0.0, -0.0, 1.0, -1.0, INF, -INF, NAN):
+            for u in (0.0, -0.0, 1.0, -1.0, INF, -INF, NAN):
                 add("a t=%d f=atan2 x=%d y=%d" % (w, sg(f2b(v, w), w), sg(f2b(u, w), w)), "a/atan2-special")
+        if w == 64:
+            # long double overloads at run time (observed only): binary64 values converted to long double
+            ld_fixed = sorted(set([f2b(v, 64) for v in CA_IN if v == v] + dense_values(64)))
+            ld_in = sorted(set(ld_fixed + [f2b(rnd.uniform(-10, 10), 64) for _ in range(n // 5)]
+                               + [f2b(rnd.uniform(-1, 1), 64) for _ in range(n // 10)]))
+            for f in LD_GCEM + LD_BUILTIN:
+                if f in ("pow", "atan2"):
+                    continue
+                # sin/cos/tan(long double) = gcem with an absolute error of ~2e-16: next to a zero or pole the distance in
+                # long double ulps is unbounded (tan(6.2829L): 4.6e6), so a seeded sample has no stable maximum: fixed list only
+                for b in (ld_fixed if f in ("sin", "cos", "tan") else ld_in):
+                    add("al t=64 f=%s x=%d" % (f, sg(b, 64)), "al/" + f)
+            for x, y in CA2_IN["pow"] + [(2.0, 2.5), (2.0, -3.5), (2.5, 2.5), (10.0, 10.5), (0.5, 40.5), (3.0, 0.5)]:
+                add("al t=64 f=pow x=%d y=%d" % (sg(ca_bits(x, 64), 64), sg(ca_bits(y, 64), 64)), "al/pow")
+            for x, y in CA2_IN["atan2"]:
+                add("al t=64 f=atan2 x=%d y=%d" % (sg(ca_bits(x, 64), 64), sg(ca_bits(y, 64), 64)), "al/atan2")
         # complex
         nc = 600 if thorough else 80
         for f in COMPLEX:
@@ -382,6 +566,16 @@ def approx_cases(tier, seed, dist):
                 else:
                     re_, im_ = rnd.uniform(-3, 3), rnd.uniform(-3, 3)
                 add("c t=%d f=%s re=%d im=%d" % (w, f, sg(f2b(re_, w), w), sg(f2b(im_, w), w)), "c/" + f)
+        # abs / arg / norm / conj: components 0, -0, inf, -inf, NaN, 1e30, 1e-30 and ordinary values (all 81 pairs); abs over
+        # the magnitude grid.  The reference is libstdc++ itself, also where it departs from C Annex G (norm(inf, NaN) = NaN:
+        # re*re + im*im); nothing is masked: etl agrees with libstdc++ on every pair.
+        csp = [f2b(v, w) for v in (0.0, -0.0, INF, -INF, NAN, 1.0, -2.5, 1e30, 1e-30)]
+        for f in ("abs", "arg", "norm", "conj"):
+            for re_ in csp:
+                for im_ in csp:
+                    add("c t=%d f=%s re=%d im=%d" % (w, f, sg(re_, w), sg(im_, w)), "c/%s-special" % f)
+        for x, y in rnd.sample([(x, y) for x in mg for y in mg], 400 if not thorough else 4000):
+            add("c t=%d f=abs re=%d im=%d" % (w, sg(x, w), sg(y | (sign[w] if rnd.random() < 0.3 else 0), w)), "c/abs-grid")
         for f in COMPLEX2:
             for _ in range(nc):
                 a, b, c, d = (rnd.uniform(-100, 100) for _ in range(4))
@@ -420,7 +614,7 @@ def _args(line):
 
 def nontrivial(case, rows):
     op, d, w = _args(case.lines[0])
-    if op in ("a", "ca", "c", "s"):
+    if op in ("a", "ca", "al", "c", "s", "cs"):
         return rows[0].impl == "ok" or rows[0].impl not in ("*",)
     x = int(d["x"]) % (1 << w)
     s, e, m = fields(x, w)
@@ -428,24 +622,58 @@ def nontrivial(case, rows):
     return special or rows[0].spec != str(x)
 
 
+EPS = {32: 2.0 ** -23, 64: 2.0 ** -52, 80: 2.0 ** -63}         # 80: the x87 long double of op `al`
+EXP_OVERFLOW = {32: 88.0, 64: 709.0, 80: 11356.0}
+
+
+def ca_known_class(f, w, v, y=None):
+    """The argument classes of finding F-C16-gcem-outside-domain: constant-evaluated (gcem) calls that are known to violate
+    the relative bound or a special case.  Exact predicates on (function, format, argument); quoted in the finding."""
+    if v != v:
+        return False
+    a = abs(v)
+    if f in ("log", "log2", "log10"):
+        return 0 < v < EPS[w]                                   # x < epsilon returns -inf
+    if f in ("sin", "tan", "asin", "atan", "sinh", "tanh", "asinh", "atanh", "erf") and a < EPS[w]:
+        return True                                             # |x| < epsilon returns +0 (the sign of -0 is lost too)
+    if f in ("sinh", "asinh", "atanh") and a < 0.01:
+        return True                                             # exp / log form: cancellation for small arguments
+    if f in ("sin", "cos", "tan") and a >= 1e30:
+        return True                                             # no argument reduction
+    if f == "tanh" and a >= (50.0 if w == 32 else 30.0):
+        return True                                             # exceeds 1 and grows like e^x (binary64: 7 ulps at 32.5, 1432 at 40.5)
+    if f in ("sinh", "cosh") and a > EXP_OVERFLOW[w]:
+        return True                                             # exp(x) overflows before the halving
+    if f == "asinh" and v <= -100.0:
+        return True                                             # x + sqrt(x*x + 1) cancels
+    if f == "tgamma" and a < 1e-4:
+        return True                                             # inf for tiny arguments, +inf for -0
+    if f == "lgamma" and (v < 0 or a < 1e-4 or (v not in (1.0, 2.0) and (abs(v - 1) < 0.01 or abs(v - 2) < 0.01))):
+        return True                                             # inf for negative arguments; no relative accuracy near the zeros 1, 2
+    if f == "exp" and w == 80 and a >= 2.0 ** 63:
+        return True                                             # long double at run time: the integer part leaves long long, exp(1e30L) = 0
+    if f == "pow" and v < 0:
+        return True                                             # negative base: NaN
+    if f == "atan2" and v == 0.0:
+        return True                                             # a zero first argument: its sign is ignored
+    return False
+
+
 def classify(case, k, row):
-    """finding id for a failing (impl != spec) case; the predicates are the hypotheses of the *_partial theorems"""
+    """Finding id for a failing (impl != spec) case.  C16 has no `*_partial` theorems (the classified functions have no Lean
+    model at all): the predicate is `ca_known_class` (function, format and argument of a gcem call: constant-evaluated `ca`, or a
+    long double overload without a builtin branch `al`), quoted in the finding text.  A crash (`ub(...)`) is never classified."""
     op, d, w = _args(case.lines[k])
     f = d.get("f", "")
-    if op == "cb" and f in ("fmod", "remainder"):
-        return "F-C16-gcem-fmod-constexpr"
-    if op == "a" and f in GCEM_RT and "x" in d:
+    if row.impl.startswith("ub(") or row.impl == "skipped":
+        return None
+    if op == "ca" and "x" in d:
         v = b2f(int(d["x"]) % (1 << w), w)
-        lo, hi = GCEM_RT[f]
-        if v == v and not (lo <= v <= hi):                      # outside the working range of gcem's series
+        if ca_known_class(f, w, v):
             return "F-C16-gcem-outside-domain"
-    if op == "a" and f == "atan2":
-        v = b2f(int(d["x"]) % (1 << w), w)
-        if v == 0.0:                                            # a zero first argument: the sign of zero is ignored
-            return "F-C16-gcem-outside-domain"
-    if op == "ca" and f == "tanh":
-        v = b2f(int(d["x"]) % (1 << w), w)
-        if abs(v) >= 50.0:
+    if op == "al" and f in LD_GCEM and "x" in d:                  # the long double overloads that run gcem at run time
+        v = b2f(int(d["x"]) % (1 << 64), 64)
+        if ca_known_class(f, 80, v):
             return "F-C16-gcem-outside-domain"
     return None
 
@@ -455,35 +683,45 @@ def group_of(case):
 
 
 CLAIMED = True
-TECHNIQUE = ("Lean 4 proof of a bit-level IEEE-754 specification (all formats) + three-way correspondence "
-             "etl = Lean spec = glibc on up to all 2^32 float patterns; approximating functions: differential only")
+TECHNIQUE = ("Lean 4 proof of a bit-level IEEE-754 specification (all formats) + four-sided correspondence etl = Lean model, Lean spec = glibc, "
+             "etl = Lean spec on 2^20 (quick) / 2^24 (thorough) binary32 patterns; a C++-only sweep etl = glibc on 2^24 / all 2^32 binary32 "
+             "patterns (dispatch check for builtin-forwarded functions); approximating functions: differential only")
 LEVEL_TEXT = ("The exact cmath functions (floor, ceil, trunc, round, rint, lrint/llrint, fabs/abs, copysign, signbit, fmin, fmax, fdim, "
               "fmod, remainder, nextafter, isnan/isinf/isfinite) are specified in Lean 4 as integer arithmetic on bit patterns for an "
               "arbitrary (ebits, mbits) format. Theorems (no sorry, axioms propext/Classical.choice/Quot.sound) show for every "
               "pattern that the bit-level rounding functions return exactly the mathematically rounded integer (value = "
               "mag/2^K, compared by cross-multiplication), keep sign/NaN/infinity as C requires, that the classification predicates "
-              "partition the patterns, that copysign/fabs/signbit act on the sign bit only, that nextafter moves to the adjacent "
-              "pattern in value order, and that tetl's own algorithms (nextafter, fmin, fmax, signbit/copysign fallbacks, isfinite) "
-              "equal that spec. The spec is tied to glibc and the model to tetl's current source on every run: a C++ sweep "
-              "compares etl with libm on 2^24 stratified (thorough: all 2^32) binary32 patterns and >1e7 binary64 patterns, and "
-              "2^20 (2^24) patterns go through the compiled Lean spec as well (impl = model, spec = libm, impl = spec), on the "
-              "run-time path and, for a table of special values, on the constant-evaluated path.")
+              "partition the patterns, that copysign/fabs/signbit act on the sign bit only (of NaNs too), that nextafter moves to the "
+              "adjacent pattern in value order, and that the algorithms tetl runs itself (nextafter, abs_impl for every pattern, "
+              "copysign fallback, isfinite, gcem floor/ceil/trunc/round, the constant-evaluated fmod/remainder ladder) equal that "
+              "spec. The spec is tied to glibc and the model to tetl's current source on every run: 2^20 (thorough 2^24) binary32 and "
+              "2^18 (2^22) binary64 patterns go through the compiled Lean spec and model (impl = model, spec = libm, impl = spec), on "
+              "the run-time path and, for a table of special values, on the constant-evaluated path. Beyond that a C++-only sweep "
+              "compares etl with libm on 2^24 stratified (thorough: all 2^32) binary32 patterns and >1e7 binary64 patterns; the Lean "
+              "side does not see those. For the functions whose run-time path forwards to the compiler builtin that libstdc++ "
+              "resolves to as well (floor, ceil, trunc, round, rint, lrint, llrint, signbit, isnan, isinf, copysign, fmod, remainder, "
+              "sqrt and the other libm-forwarded functions) the run-time model is the spec and the C++ comparison is a call compared "
+              "with the same builtin: it checks that etl dispatches to the right function unchanged, not an independent "
+              "implementation; the independent content is in the functions tetl computes itself (fabs/abs, fmin, fmax, fdim, "
+              "nextafter, isfinite, hypot, lerp, midpoint) and in every constant-evaluated path.")
 LEVEL_NOTE = ("Partial (DESIGN §6): sqrt, exp, log*, pow, trigonometric/hyperbolic functions and inverses, erf, gamma, beta, hypot, the "
               "complex functions, lerp, midpoint and fma have no Lean model; they are compared with glibc/libstdc++ within a measured "
-              "tolerance and listed under coverage.unproved_observed. Run-time paths that call a compiler builtin are assumed to "
-              "implement the C function (observed on every explored input). Members with a spec but no theorem: "
-              "coverage.correspondence_only. Known findings: gcem's constant-evaluated fmod/remainder, gcem series outside their "
-              "working range. The gcem rounding theorems need mbits <= 62 (integer part within long long): binary32/64, not long double.")
+              "tolerance (relative; bit-identical where the run-time path is the libm builtin, which checks the dispatch only) and "
+              "listed under coverage.unproved_observed. Run-time paths that call a compiler builtin are assumed to implement the C "
+              "function (on `.rt` the model is the spec, R1 coincides with R3). Members with a spec but no theorem: "
+              "coverage.correspondence_only. Known finding: the constant-evaluated gcem series outside the argument classes listed in "
+              "F-C16-gcem-outside-domain. nearbyint, isnormal, fpclassify are not provided by etl (n/a). NaN payloads are never "
+              "compared; NaN sign bits for fabs/abs/copysign only. The gcem rounding theorems need mbits <= 62 (integer part within "
+              "long long): binary32/64, not long double.")
 P = "Tetl.C16.Props."
 THEOREMS = {
     "u": [P + n for n in ("floor_spec", "ceil_spec", "trunc_spec", "round_spec", "rint_spec", "rounding_special", "rnd_exact",
                           "intMag_trunc", "intMag_away", "intMag_halfAway", "intMag_halfEven", "classify_partition",
                           "fabs_spec", "isfinite_eq", "absImpl_eq", "absImpl_nan")],
-    "cu": [P + n for n in ("signbitFallback_eq", "gcemFloor_eq", "gcemCeil_eq", "gcemTrunc_eq", "gcemRound_eq", "std_cv",
-                           "absImpl_eq", "absImpl_nan")],
-    "b": [P + n for n in ("copysign_spec", "fmin_model_eq", "fmax_model_eq", "fmin_spec", "fmax_spec", "fmin_nan",
+    "cu": [P + n for n in ("gcemFloor_eq", "gcemCeil_eq", "gcemTrunc_eq", "gcemRound_eq", "std_cv", "absImpl_eq", "absImpl_nan")],
+    "b": [P + n for n in ("copysign_spec", "fmin_spec", "fmax_spec", "fmin_nan",
                           "nextafter_model_eq", "nextafter_adjacent", "nextafter_special", "key_is_value_order", "mag_strict_mono")],
-    "cb": [P + n for n in ("copysignFallback_eq", "nextafter_model_eq", "fmin_model_eq", "fmax_model_eq")],
+    "cb": [P + n for n in ("copysignFallback_eq", "nextafter_model_eq", "fmodCt_eq", "remainderCt_eq")],
 }
 THEOREMS["uv"] = THEOREMS["u"]
 THEOREMS["bv"] = THEOREMS["b"]
